@@ -184,6 +184,8 @@ def join_component_view(component, view):
     """
     if view is None:
         return component
+    if isinstance(view, np.ndarray):  # a single (boolean or integer) index array
+        return component, view
     result = [component]
     try:
         result.extend(view)
